@@ -20,7 +20,7 @@ func openCases(prop, tier string, seed uint64) []Case {
 	r := newRand(subSeed(seed, prop, tier))
 	n := 24
 	if tier == "thorough" {
-		n = 400
+		n = 600
 	}
 	cfgs := someCfgs(r, 8)
 	var cases []Case
